@@ -19,7 +19,8 @@ META = {
                    'square, so A A^T = I follows; (2) the inverse module run on a free symbolic pyramid c equals A^T c; (3) back-propagating a symbolic cotangent g '
                    'through the forward module (the repository\'s own backward, driven by the autograd tape model) equals A^T g and equals inverse(g). '
                    'Thorough: direct quadratic energy query (QF_NRA) for n <= 8.',
-    'bounds': {'quick': {'wavelets': 'haar, db2..db6, db8, sym2..sym5, sym8, coif1, coif2 (1-D); haar, db2, db3, sym4 (2-D)', 'J': [1, 2, 3],
+    'bounds': {'added_families': ['per-axis orthogonal pairs db2|db3, haar|db2, sym4|db2 (J=1,2)'],
+               'quick': {'wavelets': 'haar, db2..db6, db8, sym2..sym5, sym8, coif1, coif2 (1-D); haar, db2, db3, sym4 (2-D)', 'J': [1, 2, 3],
                          'N': 'm*2^J with N/2^(J-1) >= L, two sizes per (wavelet,J), cap 64', '2-D': 'sizes <= 16x16'},
                'thorough': {'wavelets': 'every pywt wavelet with .orthogonal and L <= 40 (1-D)', 'N': 'three sizes per (wavelet, J), cap 2L+2^J+8', '2-D': 'L<=8, sizes <= 16x16'}},
     'outside': 'sizes beyond the caps; wavelets with L > 40 in 1-D; float rounding in kernels',
